@@ -483,7 +483,12 @@ impl Expression {
                 PathAnalysisState::NotInPath
             }
             Expression::LitFloat { value: x, .. } => {
-                write!(value, "{}", x)?;
+                if x.is_infinite() {
+                    // a literal such as `1e999` (never negative: `-` is parsed as an operator)
+                    write!(value, "Infinity")?;
+                } else {
+                    write!(value, "{}", x)?;
+                }
                 PathAnalysisState::NotInPath
             }
             Expression::LitBool { value: x, .. } => {
